@@ -106,6 +106,9 @@ func verifC11Gen(t *rapid.T, w *verifC11World) *verifC11Act {
 	case "sub":
 		id := w.nextSub
 		q := verifC11DrawQ(t, w)
+		if q.isHealth() && verifC11Chance(t, "healthfilter", 35) {
+			q.HF = verifC11Pick(t, "hf", []int{1, 2, 2})
+		}
 		return &verifC11Act{A: "sub", Sub: id, Q: q, Token: verifC11Pick(t, "token", []string{"", "TA", "TA", "TB", "TB", "TC"}), Authz: verifC11DrawAuthz(t, w, q)}
 	case "consume":
 		// a restricted subscriber that shares its buffer with a differently privileged one tends to read first: the
